@@ -188,8 +188,10 @@ fn directed_plain_cases(out: &mut Out, s: &Setup, r: &mut Rng) {
 
 /// Directed operand shapes for add / sub: every ordered pair of sizes 2..4 (products left unrelinearised), at the first level and — where
 /// the chain allows — one level down, where BGV products of switched operands carry correction factors g^2, g^3 against g of a switched fresh
-/// ciphertext (different sizes AND different correction factors, larger operand first and second).  Returns (name, a, b, result, expected message).
-pub fn size_pair_cases(s: &Setup, r: &mut Rng) -> Vec<(String, Ciphertext, Ciphertext, Ciphertext, Vec<u64>)> {
+/// ciphertext (different sizes AND different correction factors, larger operand first and second).  Returns (name, a, b, result, expected message,
+/// predicted budget of the result).  The prediction is a priori (fresh budget, then the conservative product rule of `Prog::pred_mul`): the library's
+/// reported budget of a PRODUCT cannot be used, it is relative to the nearest plaintext and can be positive for a product that has already wrapped.
+pub fn size_pair_cases(s: &Setup, r: &mut Rng) -> Vec<(String, Ciphertext, Ciphertext, Ciphertext, Vec<u64>, f64)> {
     let (n, t) = (s.n, s.t); let ev = &s.evaluator;
     let mut out = vec![];
     let nlev = s.levels().len();
@@ -199,13 +201,20 @@ pub fn size_pair_cases(s: &Setup, r: &mut Rng) -> Vec<(String, Ciphertext, Ciphe
             let (c2, m2) = fresh(r); let (x, mx) = fresh(r); let (y, my) = fresh(r); let (z, mz) = fresh(r);
             let c3 = ev.multiply_new(&x, &y); let m3 = shadow_mul(&mx, &my, t);
             let c4 = ev.multiply_new(&c3, &z); let m4 = shadow_mul(&m3, &mz, t);
-            vec![(c2, m2), (c3, m3), (c4, m4)] }));
+            let (ln, lt) = ((n as f64).log2(), (t as f64).log2());
+            let lbits: f64 = s.level_qs(c2.parms_id()).iter().map(|&q| (q as f64).log2()).sum();
+            let pf = |c: &Ciphertext| lib_budget(s, c) - 1.0;
+            let pm = |pa: f64, pb: f64, sz: f64| if s.scheme == SchemeType::BGV { pa + pb - lbits - ln - 4.0 - sz } else { pa.min(pb) - (lt + 2.0 * ln + 10.0 + sz) };
+            let p2 = pf(&c2); let p3 = pm(pf(&x), pf(&y), 4.0); let p4 = pm(p3, pf(&z), 5.0);
+            vec![(c2, m2, p2), (c3, m3, p3), (c4, m4, p4)] }));
         let ops = match built { Ok(v) => v, Err(_) => continue };
-        for (ia, (a, ma)) in ops.iter().enumerate() { for (ib, (b, mb)) in ops.iter().enumerate() {
+        for (ia, (a, ma, pa)) in ops.iter().enumerate() { for (ib, (b, mb, pb)) in ops.iter().enumerate() {
             for sub in [false, true] {
                 let res = match std::panic::catch_unwind(std::panic::AssertUnwindSafe(|| if sub { ev.sub_new(a, b) } else { ev.add_new(a, b) })) { Ok(c) => c, Err(_) => continue };
                 let want = if sub { shadow_sub(ma, mb, t) } else { shadow_add(ma, mb, t) };
-                out.push((format!("{}-s{}x{}-l{}", if sub { "sub" } else { "add" }, ia + 2, ib + 2, down), a.clone(), b.clone(), res, want));
+                // (BGV operands with different correction factors are first multiplied by balancing scalars below t: up to log2 t + 1 further bits)
+                let bal = if a.correction_factor() != b.correction_factor() { (t as f64).log2() + 1.0 } else { 0.0 };
+                out.push((format!("{}-s{}x{}-l{}", if sub { "sub" } else { "add" }, ia + 2, ib + 2, down), a.clone(), b.clone(), res, want, pa.min(*pb) - 3.0 - bal));
             }
         } }
     }
@@ -213,11 +222,8 @@ pub fn size_pair_cases(s: &Setup, r: &mut Rng) -> Vec<(String, Ciphertext, Ciphe
 }
 
 fn directed_size_pairs(out: &mut Out, s: &Setup, r: &mut Rng) {
-    for (name, a, b, res, want) in size_pair_cases(s, r) {
-        // the sum / difference of two ciphertexts loses at most 2 bits of the smaller operand budget (C07 `budget_add_k`)
-        // (BGV operands with different correction factors are first multiplied by balancing scalars below t: up to log2 t + 1 further bits)
-        let bal = if a.correction_factor() != b.correction_factor() { (s.t as f64).log2() + 1.0 } else { 0.0 };
-        let pred = (lib_budget(s, &a).min(lib_budget(s, &b)) - 3.0 - bal).floor() as i64;
+    for (name, a, b, res, want, p) in size_pair_cases(s, r) {
+        let pred = p.floor().max(-1.0) as i64;
         let view = |c: &Ciphertext| if s.scheme == SchemeType::BFV && c.is_ntt_form() { s.evaluator.transform_from_ntt_new(c) } else { c.clone() };
         let v = view(&res);
         out.case(&format!("prog {} {} {}", s.ct_case(&v), pred, fl(&trim(&want))), &format!("pairs-{}-{}", scheme_name(s.scheme), name), || s.dec_str(&v));
